@@ -6,7 +6,9 @@
 package watchsim
 
 import (
+	"bufio"
 	"context"
+	"encoding/base64"
 	"encoding/json"
 	"fmt"
 	"net"
@@ -51,8 +53,10 @@ type swarm struct {
 	fDrop     bool
 	fPartial  bool
 	fSlowHS   bool
+	fPlainGet bool
 	holdHS    bool
 	holdAdmit bool
+	stretch   int // 0 none, 1 compile window, 2 publish window, 3 both
 	fDup      bool
 	fDropW    bool
 	fAddFail  bool
@@ -106,6 +110,8 @@ type world struct {
 	closeBegun      atomic.Bool
 	hsWeight        int
 	admitWeight     map[string]int
+	baseWeight      map[string]int
+	publishing      atomic.Bool
 	heldAdmit       bool
 	signalled       atomic.Bool
 	signalAt        time.Duration
@@ -131,12 +137,25 @@ func wt(on bool, n int) int {
 	return 0
 }
 
-var verRe = regexp.MustCompile(`>([vw])(\d{4})<`)
+var (
+	classRe = regexp.MustCompile(`class="([A-Za-z0-9+/]+=*)"`)
+	verRe   = regexp.MustCompile(`^([vw])(\d{4})$`)
+)
 
-// versions extracts the (main, import) content versions a rendered SVG carries.
+// versions extracts the (main, import) content versions a rendered SVG carries. The
+// objects have empty labels (no text means no font subsetting, which would dominate the
+// cost of a compile); d2 puts the base64 of an object's id into its class attribute.
 func versions(svg string) (int, int) {
 	m, i := -1, -1
-	for _, g := range verRe.FindAllStringSubmatch(svg, -1) {
+	for _, c := range classRe.FindAllStringSubmatch(svg, -1) {
+		id, err := base64.StdEncoding.DecodeString(c[1])
+		if err != nil {
+			continue
+		}
+		g := verRe.FindStringSubmatch(string(id))
+		if g == nil {
+			continue
+		}
 		n := 0
 		fmt.Sscanf(g[2], "%d", &n)
 		if g[1] == "v" && n > m {
@@ -201,10 +220,14 @@ func (w *world) trace(ev string, arg any) {
 		w.inCompile.Store(true)
 	case "compile.end":
 		w.inCompile.Store(false)
+		w.publishing.Store(true)
 		if b, ok := arg.([]byte); ok {
 			m, i := versions(string(b))
 			out = verEv{Main: m, Imp: i}
 		}
+	case "bcast.notify":
+		w.publishing.Store(false)
+		out = arg
 	case "ws.handler.start":
 		if s, ok := arg.(string); ok {
 			w.mu.Lock()
@@ -244,9 +267,9 @@ func (w *world) fsHandler(op simfs.Op) simfs.Decision {
 
 func content(main bool, ver int, imports bool) string {
 	if !main {
-		return fmt.Sprintf("w%04d: \"w%04d\"\n", ver, ver)
+		return fmt.Sprintf("w%04d: \"\"\n", ver)
 	}
-	s := fmt.Sprintf("v%04d: \"v%04d\"\n", ver, ver)
+	s := fmt.Sprintf("v%04d: \"\"\n", ver)
 	if imports {
 		s += "...@b\n"
 	}
@@ -399,12 +422,38 @@ func (w *world) browser(c *client) {
 		return
 	}
 	c.conn = conn
-	if w.park(c, "browser:"+c.name+":handshake", []sched.Option{{"full", 10}, {"partial-then-drop", wt(w.cfg.fPartial && !w.settling.Load(), 1)}}) == 1 {
+	switch w.park(c, "browser:"+c.name+":handshake", []sched.Option{{"full", 10}, {"partial-then-drop", wt(w.cfg.fPartial && !w.settling.Load(), 1)},
+		{"plain-get", wt(w.cfg.fPlainGet && !w.settling.Load(), 2)}}) {
+	case 1:
 		w.fault("client_dropped_mid_handshake")
 		conn.SetWriteDeadline(time.Now().Add(time.Second))
 		conn.Write([]byte("GET /watch HTTP/1.1\r\nHost: sim\r\nUpgrade: webs"))
 		conn.Close()
 		w.setState(c, "handshake-dropped", "")
+		return
+	case 2:
+		// Something that is not a WebSocket client asks for /watch (a curl, a crawler, a
+		// browser tab opened on the URL): the upgrade is refused.
+		w.fault("client_plain_http_get_of_watch")
+		variants := []string{
+			"GET /watch HTTP/1.1\r\nHost: sim\r\n\r\n",
+			"GET /watch HTTP/1.1\r\nHost: sim\r\nConnection: Upgrade\r\nUpgrade: websocket\r\nSec-WebSocket-Version: 8\r\nSec-WebSocket-Key: AAAAAAAAAAAAAAAAAAAAAA==\r\n\r\n",
+			"GET /watch HTTP/1.1\r\nHost: sim\r\nOrigin: http://evil.example\r\nConnection: Upgrade\r\nUpgrade: websocket\r\nSec-WebSocket-Version: 13\r\nSec-WebSocket-Key: AAAAAAAAAAAAAAAAAAAAAA==\r\n\r\n",
+		}
+		req := variants[w.tp.Draw(len(variants), "client.plainget")]
+		if _, err := conn.Write([]byte(req)); err != nil {
+			conn.Close()
+			w.setState(c, "refused", err.Error())
+			return
+		}
+		resp, err := http.ReadResponse(bufio.NewReader(conn), nil)
+		st := "plainget-noresponse"
+		if err == nil {
+			st = fmt.Sprintf("plainget-%d", resp.StatusCode)
+			resp.Body.Close()
+		}
+		conn.Close()
+		w.setState(c, st, "")
 		return
 	}
 	ctx := context.Background()
@@ -467,8 +516,12 @@ func (w *world) browser(c *client) {
 			w.fault("client_stalled")
 		case 2:
 			w.fault("client_closed")
+			// The tab is closed: the connection goes away at once. (A graceful close
+			// handshake is a conversation between two library goroutines on either side
+			// that the simulator does not schedule; who notices whom first only changes
+			// whether somebody sits out a 5 s timeout, and made runs irreproducible.)
 			w.setState(c, "closed-by-sim", "")
-			ws.Close(websocket.StatusNormalClosure, "bye")
+			ws.CloseNow()
 			conn.Close()
 			return
 		case 3:
@@ -593,8 +646,10 @@ func runInBubble(hcfg harness.Config, idx int, tp *tape.Tape, dir string, res *h
 		fDrop:     tp.Chance(1, 2, "cfg.drop"),
 		fPartial:  tp.Chance(1, 3, "cfg.partial"),
 		fSlowHS:   tp.Chance(1, 2, "cfg.slowhandshake"),
+		fPlainGet: tp.Chance(1, 2, "cfg.plainget"),
 		holdHS:    tp.Chance(1, 2, "cfg.holdhandshakes"),
 		holdAdmit: tp.Chance(1, 3, "cfg.holdadmit"),
+		stretch:   tp.Weighted([]int{2, 3, 3, 2}, "cfg.stretch"),
 		fDup:      tp.Chance(1, 2, "cfg.dup"),
 		fDropW:    tp.Chance(1, 3, "cfg.dropwrite"),
 		fAddFail:  tp.Chance(1, 3, "cfg.addfail"),
@@ -606,10 +661,14 @@ func runInBubble(hcfg harness.Config, idx int, tp *tape.Tape, dir string, res *h
 	w.cfg.extraStep = tp.Draw(40, "cfg.extrasteps")
 	sim.TimeWeight = 1
 	for _, cl := range []string{"req", "compile.wait", "compile.start", "compile.bcast", "bcast.res", "bcast.clients", "ws.admit", "ws.accept", "ws.register",
-		"wl.getres", "wl.wait", "close", "close.wait", "fs", "fsn", "kernel", "editor", "browser", "hs-send", "hs-mid", "hs-await", "hs-read"} {
+		"wl.getres", "wl.wait", "close", "close.cancel", "close.wait", "fs", "layout", "fsn", "kernel", "editor", "browser", "hs-send", "hs-mid", "hs-await", "hs-read"} {
 		sim.ClassWeight[cl] = 2 + tp.Draw(10, "cfg.w."+cl)
 	}
 	sim.ClassWeight["operator"] = 0
+	w.baseWeight = map[string]int{}
+	for k, v := range sim.ClassWeight {
+		w.baseWeight[k] = v
+	}
 	w.hsWeight = sim.ClassWeight["hs-await"]
 	w.admitWeight = map[string]int{"ws.admit": sim.ClassWeight["ws.admit"], "ws.accept": sim.ClassWeight["ws.accept"]}
 
@@ -636,7 +695,16 @@ func runInBubble(hcfg harness.Config, idx int, tp *tape.Tape, dir string, res *h
 	verifhook.ListenerFn = func() net.Listener { return w.lis }
 	fs := &simfs.FS{Root: dir, Handler: w.fsHandler}
 	simfs.Install(fs)
+	// The stub layout engine is a scheduling point in the middle of a compile (after the
+	// sources were read, before the result exists): the place where a real compile spends
+	// its time.
+	stubplugin.P.Before = func() {
+		if w.inCompile.Load() {
+			sim.Yield("layout:stub")
+		}
+	}
 	defer func() {
+		stubplugin.P.Before = nil
 		simfs.Uninstall()
 		verifhook.YieldFn, verifhook.TraceFn, verifhook.ListenerFn = nil, nil, nil
 		fsnotify.SimNewBackend = nil
@@ -723,6 +791,7 @@ func runInBubble(hcfg harness.Config, idx int, tp *tape.Tape, dir string, res *h
 			}
 		}
 		allowTime := true
+		w.biasInFlight()
 		w.biasHandshakes()
 		if w.signalled.Load() {
 			sim.ClassWeight["operator"] = 0
@@ -850,6 +919,47 @@ func runInBubble(hcfg harness.Config, idx int, tp *tape.Tape, dir string, res *h
 	res.SimSeconds = (sim.Now() - 2*time.Hour).Seconds()
 	res.SchedHash = sim.SchedHash()
 	res.Nontrivial = w.cfg.clients > 0 && (w.cfg.edits > 0 || w.cfg.profile == "C45")
+}
+
+// biasInFlight (half of the runs): while a compile is in progress, or its result is on the
+// way from the compile loop to the clients, the simulator prefers everything that creates
+// new work (saves, fs events, the watch loop's requests, the clock for its 16 ms burst
+// timer, clients connecting) over finishing the operation in flight. Faults and events
+// that land inside an operation are where coalescing and ordering bugs live; uniformly
+// random schedules mostly finish a compile before the next save arrives.
+func (w *world) biasInFlight() {
+	if w.cfg.stretch == 0 || w.signalled.Load() || w.settling.Load() {
+		return
+	}
+	compiling := w.inCompile.Load() && w.cfg.stretch&1 != 0
+	publishing := w.publishing.Load() && w.cfg.stretch&2 != 0
+	inflight := compiling || publishing
+	for _, c := range []string{"editor", "kernel", "req", "fsn", "browser"} {
+		if inflight {
+			w.sim.ClassWeight[c] = w.baseWeight[c] * 4
+		} else {
+			w.sim.ClassWeight[c] = w.baseWeight[c]
+		}
+	}
+	for _, c := range []string{"fs", "layout", "compile.bcast"} {
+		if compiling {
+			w.sim.ClassWeight[c] = 1
+		} else {
+			w.sim.ClassWeight[c] = w.baseWeight[c]
+		}
+	}
+	for _, c := range []string{"bcast.res", "bcast.clients"} {
+		if publishing {
+			w.sim.ClassWeight[c] = 1
+		} else {
+			w.sim.ClassWeight[c] = w.baseWeight[c]
+		}
+	}
+	if inflight {
+		w.sim.TimeWeight = 6
+	} else {
+		w.sim.TimeWeight = 1
+	}
 }
 
 // biasHandshakes steers slow browser handshakes towards the shutdown window (C45 profile,
